@@ -15,7 +15,7 @@ from ..facts import peel, strip_casts, show, walk, cond_atom
 from .common import (callee_short, field_of, base_of, deref, assigned_target, const_int,
                      iter_container, local_ref, resolve_typedef, enclosing_loops, loop_container)
 
-LEVEL = "proof"
+LEVEL = "other"
 EXPLANATION = ("Index-field coverage of every remap_indices (records, database, builder), wrapper-first numbering from 1, "
                "and header/entry agreement for C wrappers; obligations = index fields / numbering steps / header parts.")
 TRUSTED = ["clang 14 AST/CFG", "sugared typedef names identify index-typed fields (TypeIndex, FunctionIndex, ... of interrogate_interface.h)",
